@@ -257,12 +257,14 @@ theorem C13_etcd_moved_not_accepted (ops : List EtcdOp) (key : String) (i : Info
 open SigModel.Generated.Backends in
 /-- The facts read from the source that the lookup model is defined over: `https` always, `http`
 only for backends configured with an http url, nothing else; first matching entry wins; prefix
-test on the url with a trailing slash; urls with "." / ".." segments are refused before the
+test on the url with a trailing slash against the entry's url with a trailing slash (appended for
+the comparison when the entry is stored without one — etcd); urls with "." / ".." segments are refused before the
 storage is asked; `Reload` is refused in compat mode and does not skip a file without backends; and no lock user
 outside the modelled entry points. -/
 theorem C13_facts :
     schemeHttps = "true" ∧ schemeHttp = "allowHttp" ∧ schemeOther = "false" ∧
     lookupFirstMatchWins = true ∧ lookupUsesHasPrefix = true ∧ lookupAppendsSlash = true ∧
+    lookupEntrySlashTerminated = true ∧
     lookupRefusesDotSegments = true ∧ reloadCompatGuard = true ∧ reloadIgnoresEmptyIds = false ∧
     unreachedLockUsers = [] := by decide
 
@@ -278,7 +280,8 @@ theorem C13_scheme_rule (b : Backend) (scheme : String) :
 
 theorem specMatches_iff (p : Probe) (b : Backend) :
     specMatches p b = (decide (b.host = p.host) && entryMatches p.scheme p.url b) := by
-  unfold specMatches entryMatches
+  unfold specMatches entryMatches entryUrl
+  simp only [C13_facts.2.2.2.2.2.2.1, if_true]
   rw [C13_scheme_rule]
   by_cases h : b.host = p.host <;> simp [h]
 
